@@ -9,7 +9,7 @@
    object that is not live (outcome Dangling of [step]).  [listed u p] = p is in u's input or output
    port list. *)
 From OlaBase Require Import Bytes.
-From C03 Require Import Gen Model Lemmas Proofs Proofs2 Model2 Proofs3 Proofs4 Model3 Proofs5 Proofs6 Model4 Proofs7.
+From C03 Require Import Gen Model Lemmas Proofs Proofs2 Model2 Proofs3 Proofs4 Model3 Proofs5 Proofs6 Model4 Proofs7 Model5 Proofs8.
 Local Open Scope N_scope.
 
 (* the constants regenerated from include/ola/dmx/SourcePriorities.h are the property's numbers *)
@@ -524,6 +524,56 @@ Example ex_scale_gc :
     match zstep zc z (ZY (YX (XBase GC))) with
     | ZOk z' (RSaved l) => s_store (zbase z') = [] /\ length l = 40%nat
     | _ => False
+    end
+  | None => False
+  end.
+Proof. vm_compute. repeat split; reflexivity. Qed.
+
+(* ====================================================================================================
+   Wave 8 (Model5.v): the content of the universe settings (name, merge mode: SetName / SetMergeMode,
+   restored only when a universe is CREATED, saved with the current values when it is collected) and
+   UniverseStore::DeleteAll in mid-history (issued only while no port is patched). *)
+
+(* histories that also contain settings operations and DeleteAll run to the end (nothing dereferences a
+   deleted universe) and keep the core invariant *)
+Theorem c03w_inv : forall (zc : zcfg) (ops : list wop),
+  exists w s, wrun zc (winit zc) ops = Some w /\ s = zbase (w_z w) /\
+  (forall o u p, s_heap s o = Live u -> (listed u p <-> s_puniv s p = Some o)) /\
+  (forall p o, s_puniv s p = Some o -> exists u, s_heap s o = Live u /\ listed u p) /\
+  (forall p, s_pprio s p <= 200) /\
+  (forall n o, sfind n (s_store s) = Some o <-> exists u, s_heap s o = Live u /\ u_num u = n) /\
+  (forall o u, s_heap s o = Live u -> u_active u = false -> In o (s_cand s)) /\
+  (forall o, In o (s_cand s) -> exists u, s_heap s o = Live u) /\
+  (forall a uid q, route (w_z w) a uid = Some q -> s_puniv s q = Some a).
+Proof. exact c03w_inv_l. Qed.
+Print Assumptions c03w_inv.
+
+(* DeleteAll (no port patched) saves and deletes every universe and empties map AND queue: the next
+   collection finds nothing to touch *)
+Theorem c03w_delete_all : forall (zc : zcfg) (ops : list wop) (w : wstate),
+  wrun zc (winit zc) ops = Some w -> any_patched (xc_cfg (zc_xc zc)) (zbase (w_z w)) = false ->
+  exists w', wstep zc w WDeleteAll = WOk w' (RSaved (map fst (s_store (zbase (w_z w))))) /\
+    s_store (zbase (w_z w')) = [] /\ s_cand (zbase (w_z w')) = [] /\
+    (forall o u, s_heap (zbase (w_z w')) o <> Live u) /\
+    (forall n a, sfind n (s_store (zbase (w_z w))) = Some a ->
+       In (n, a) (s_store (zbase (w_z w)))) /\
+    exists w2 l, wstep zc w' (WZ (ZY (YX (XBase GC)))) = WOk w2 (RSaved l) /\ l = [].
+Proof. exact c03w_delete_all_l. Qed.
+Print Assumptions c03w_delete_all.
+
+(* two lives of universe 5: named 1/HTP, collected (saved), re-created (restored), renamed 2/LTP while a
+   second referrer arrives (no restore), collected: the saved settings are the current ones, 2/LTP *)
+Example ex_settings_lives :
+  let zc := mkzcfg ex_xcfg (fun _ => false) in
+  let zy o := WZ (ZY (YX o)) in
+  match wrun zc (winit zc) [zy (XSvcRegister 5 1); WSetName 5 2; WSetMode 5 true; zy (XSvcUnregister 5 1);
+                            zy (XBase GC); zy (XSvcRegister 5 1)] with
+  | Some w =>
+    (match sfind 5 (s_store (zbase (w_z w))) with Some a => w_name w a = 2 /\ w_htp w a = true | None => False end) /\
+    match wrun zc w [WSetName 5 4; WSetMode 5 false; zy (XSvcRegister 5 2); zy (XSvcUnregister 5 1);
+                     zy (XSvcUnregister 5 2); zy (XBase GC)] with
+    | Some w2 => w_pname w2 5 = Some 4 /\ w_pmode w2 5 = Some false /\ s_store (zbase (w_z w2)) = []
+    | None => False
     end
   | None => False
   end.
